@@ -76,6 +76,8 @@ fn show_diff<D: MaybeDebug>(d: &Vec<D>) -> String {
 fn show_opt<D: MaybeDebug>(d: &Option<D>) -> String { match d { None => "-".to_string(), Some(x) => if cfg!(feature = "dbg") { x.dbg() } else { "N=1".to_string() } } }
 
 /// generated setters, by field index (None = this field has no generated setter)
+/// set by a generated set_field arm when the field does not equal the value the setter was called with
+pub static STORE_MISMATCH: std::sync::atomic::AtomicBool = std::sync::atomic::AtomicBool::new(false);
 pub trait SetField: StructDiff + Sized {
     fn set_field(&mut self, _i: usize, _v: &Val) -> Option<Option<<Self as StructDiff>::Diff>> { None }
 }
@@ -248,7 +250,10 @@ where T: StructDiff + Fconv + Clone + PartialEq + Debug + SetField + Wire, T::Di
             let fi: usize = toks[i].parse().unwrap(); i += 1;
             let v = parse_val(toks, &mut i);
             let before = match x.tv(0) { Val::Struct(fs) => fs, _ => vec![] };
+            STORE_MISMATCH.store(false, std::sync::atomic::Ordering::SeqCst);
             let r = guard(|| x.set_field(fi, &v));
+            // C15: "stores exactly the given value" - compared with the field type's own == inside the generated set_field (a Vec keeps its order)
+            if STORE_MISMATCH.load(std::sync::atomic::Ordering::SeqCst) { writeln!(out, "ORACLE-FAIL {} setter call {} for field f{} did not store exactly the value it was given", id, k, fi).unwrap(); }
             match r {
                 None => { line(&mut out, id, &format!("E{}", k), None); break; }
                 Some(None) => { writeln!(out, "{} E{} NOSETTER", id, k).unwrap(); }
